@@ -147,5 +147,7 @@ def flatten(mesh : Mesh, dim : int = None) -> Mesh:
             variances.append(np.var([p[i] for p in mesh.vertices]))
         dim = np.argmin(variances)
     for i in mesh.id_vertices:
-        mesh.vertices[i][dim] = 0.
+        P = Vec(mesh.vertices[i]).copy() # rebind: the old coordinate array may be shared (caller's array, another mesh)
+        P[dim] = 0.
+        mesh.vertices[i] = P
     return mesh
